@@ -767,10 +767,14 @@ fn gen_indices(rng: &mut Rng, ity: (&str, i128, i128), n: usize, allow_oob: bool
             continue;
         }
         if oob_case && rng.chance(1, 10) {
-            let v: i128 = match rng.below(3) {
+            // just past the end, negative, and values that alias a valid row after a 32-bit wrap
+            let v: i128 = match rng.below(6) {
                 0 => n as i128,
                 1 => n as i128 + 1 + rng.below(40) as i128,
-                _ => -1 - rng.below(3) as i128,
+                2 => -1 - rng.below(3) as i128,
+                3 => (1i128 << 31) + rng.below(n as u64 + 2) as i128,
+                4 => (1i128 << 32) - 1 - rng.below(3) as i128,
+                _ => (1i128 << 32) + rng.below(n as u64 + 2) as i128,
             };
             if v >= lo && v <= hi {
                 items.push(v.to_string());
